@@ -2350,7 +2350,19 @@ RULE = (
     "the same line time repeated with another in between, unrelated ones - on groups of 40-50 tracks of 30-40 points (thorough "
     "also 10-30 tracks of 60-100; the ensemble OLS on one simulation per session, quick: 40-50 tracks of 20-25 points); ensemble "
     "CVE / OLS and KymoTrack.msd are taken from the group the simulation RETURNED "
-    "(5/8-sigma band around the simulated D, exploration; lag times = lag * simulated line time, exact; model fed with the line time asked for). Non-trivial: a track case with >=3 points, a numeric estimate and at least one "
+    "(5/8-sigma band around the simulated D, exploration; lag times = lag * simulated line time, exact; model fed with the line time asked for). "
+    "Deepening round D - the automatic number of lags and the dispatcher are now MODEL ops: every track case that is fitted with OLS also "
+    "runs determine_optimal_points itself (optpts), estimate_diffusion('ols') with max_lag=None (olsauto) and - without missing frames - "
+    "the ensemble of 2/3/5 identical copies with max_lag=None (copyauto); every group with the olsopt extra runs ensemble_diffusion('ols') "
+    "with max_lag=None (ensolsauto); each on base + position scale (any a, not only powers of two) + one more variant cycling with the "
+    "case; tracks of 4 and 5 points of the small scope included (4: RuntimeError); optimal_points(localization_error, n) for every "
+    "n in 0..520 (quick: 0..140 and some) x 22 localisation errors incl. the int 0, inf, nan (optraw); one GLS update step "
+    "_update_gls_estimate on the inverse covariance matrix the library computes, every (K, n) with 2 <= K < n <= 7 x 5 (intercept, slope) "
+    "x 2 curves + random K <= 10 (glsupd); KymoTrack.estimate_diffusion as a dispatcher (est): 4 tracks x 6 methods (3 wrong) x 7 max_lag "
+    "x 3 localization_variance x 2 variance-of-it exhaustively, random tracks with 4-6 requests, and GLS fits on tracks of 3-7 points "
+    "without missing frames (exact Gauss-Jordan elimination in the model, state rounded to doubles, 1e-5 relative). Where a sign / floor / "
+    "stop criterion the code branches on is decided by the last bits of a double the model answers `tie` and nothing is compared "
+    "(counted in lag_search_as_run_by_the_model). Non-trivial: a track case with >=3 points, a numeric estimate and at least one "
     "metamorphic variant; an ensemble with >=2 tracks and a numeric answer; a malformed case that raises."
 )
 TRUSTED = [
@@ -2359,12 +2371,20 @@ TRUSTED = [
     "lumicks.pylake.kymo._kymo_from_array with _motion_blur_constant set (as simulation/diffusion.py does) stands for a tracked kymograph: "
     "only line_time_seconds, pixelsize, motion_blur_constant, contiguous and the calibration unit are read by the estimators",
     "numpy np.unique / meshgrid / boolean selection / np.diff / np.mean semantics as transcribed in lean/Verif/Model/C09.lean",
+    "np.polyfit(x, y, 1) is the least-squares line (the model uses the closed form olsLine; sign decisions within 1e-7 of zero are not compared); "
+    "np.linalg.inv is the matrix inverse (the model eliminates exactly over Q; compared to 1e-5 on <= 6x6 covariance matrices); libm pow/cbrt "
+    "vs exp(y log x)/cbrt in Lean's Float (floors within 1e-6 of an integer are not compared)",
 ]
 ASSUMPTIONS = [
     "frame indices of a track are strictly increasing integers (hypothesis Increasing of msd_def; KymoTrack data always are); "
     "the integer type they are stored in is part of the input of the implementation only (int8..uint64, list) - the model and the oracle work on the integers",
     "theorems are over Q: they hold for the exact rational value of every double input, not for the rounded float arithmetic",
-    "outside the model (oracle/metamorphic exploration only): GLS iteration, determine_optimal_points (max_lag=None for ols and "
+    "deepening round D: determine_optimal_points / _determine_optimal_points_ensemble / optimal_points / calculate_localization_error, the GLS "
+    "iteration and the dispatcher KymoTrack.estimate_diffusion are now IN the model (theorems for every optimal_points function, every matrix "
+    "inverse and state rounding); hypotheses: a != 0 (optimal_points_scale, ols_auto_scale), AtLeastTwo op + >= 5 points + N-1 lags i.e. no "
+    "missing frames (ensemble_identical_auto; necessary: kernel-checked witness with a missing frame), a symmetric inverse covariance matrix and a "
+    "non-vanishing determinant kappa*mu - lam^2 (gls_normal_equations); the older oracle-side exploration of the same code stays: "
+    "(oracle/metamorphic exploration: GLS iteration on longer tracks, determine_optimal_points (max_lag=None for ols and "
     "ensemble ols: the oracle takes the reported num_lags and checks the normal equations through the first num_lags MSD points; "
     "the single track and the ensemble of identical copies of it must report the same num_lags and line - asserted for tracks "
     "without missing frames, where the track length ensemble_ols derives (lags + 1, theorem ensemble_identical_curve) is the "
